@@ -83,6 +83,8 @@ func loadC14Types() (*c14Types, error) {
 }
 
 type c14Endpoint struct {
+	prog  *prog.Program // set for endpoints of extracted route lists
+	vec   []int
 	ep    httpapi.Endpoint
 	input string // none json form
 	qkind []string
@@ -334,17 +336,13 @@ func runC14(tier string) int {
 	}
 	defer os.RemoveAll(tmp)
 	const perClass = 336
-	type chunk struct {
-		eps  []c14Endpoint
-		name string
-	}
-	var chunks []chunk
+	var chunks []c14Chunk
 	for i := 0; i < len(eps); i += perClass {
 		j := i + perClass
 		if j > len(eps) {
 			j = len(eps)
 		}
-		chunks = append(chunks, chunk{eps[i:j], fmt.Sprintf("class%d", i/perClass)})
+		chunks = append(chunks, c14Chunk{eps: eps[i:j], name: fmt.Sprintf("class%d", i/perClass)})
 	}
 	// single-endpoint classes: a type must be declared even when no other method mentions it
 	for _, ce := range eps {
@@ -354,17 +352,18 @@ func runC14(tier string) int {
 			(len(ce.qkind) == 0 && ce.input == "none" && ce.ret == "json" && ce.ep.Method == "GET") ||
 			(len(ce.qkind) == 0 && ce.input == "json" && ce.ret == "none" && ce.ep.Method == "POST") ||
 			(ce.input == "form" && ct.InputForm.JSON.Name != "" && ct.InputForm.File == "" && len(ct.InputForm.ValueNames) == 0 && len(ce.qkind) == 0 && ce.ret == "none" && ce.ep.Method == "POST") {
-			chunks = append(chunks, chunk{[]c14Endpoint{ce}, "single-" + ct.Name})
+			chunks = append(chunks, c14Chunk{eps: []c14Endpoint{ce}, name: "single-" + ct.Name})
 		}
 	}
 	// endpoint lists extracted by ParseEcho from route programs (quick: 1 deviation)
-	routeLists := extractedRouteLists(r)
+	routeLists, routeChunks := extractedRouteLists(r, types)
+	chunks = append(chunks, routeChunks...)
 	var mu sync.Mutex
 	var wg sync.WaitGroup
 	sem := make(chan struct{}, nWorkers())
 	for ci, ch := range chunks {
 		wg.Add(1)
-		go func(ci int, ch chunk) {
+		go func(ci int, ch c14Chunk) {
 			defer wg.Done()
 			sem <- struct{}{}
 			defer func() { <-sem }()
@@ -372,8 +371,10 @@ func runC14(tier string) int {
 			for _, ce := range ch.eps {
 				list = append(list, ce.ep)
 			}
-			var text string
-			if pi := prog.Guard(func() { text = typescript.GenerateAxios(list) }); pi != nil {
+			text := ch.text // set for the classes generated from extracted route lists
+			if text != "" {
+				// nothing to generate
+			} else if pi := prog.Guard(func() { text = typescript.GenerateAxios(list) }); pi != nil {
 				mu.Lock()
 				r.Fail(evid.Failure{Clause: "C14/generates", Sig: "GenerateAxios panics: " + trunc(pi.Msg, 60), Detail: pi.String(), Family: "F-endpoints"})
 				mu.Unlock()
@@ -441,8 +442,13 @@ func runC14(tier string) int {
 				r.State(cr.ID+"@"+ch.name, len(cr.Requests) > 0)
 				fail := func(clause, sig, detail string) {
 					r.Outcome(clause + ": " + sig)
-					r.Fail(evid.Failure{Clause: "C14/" + clause, Sig: sig + " [" + ex.ce.ep.Method + " " + ex.ce.input + " q=" + fmt.Sprint(len(ex.ce.qkind) > 0) + " ret=" + ex.ce.ret + "]", Detail: fmt.Sprintf("%s (argument variant %d): %s", desc, ex.variant, detail),
-						Family: "F-endpoints", Cost: len(ex.ce.qkind), Extra: map[string]any{"endpoint": desc, "generated_method": methodText(text, ex.ce.ep.Contract.Name)}})
+					f := evid.Failure{Clause: "C14/" + clause, Sig: sig + " [" + ex.ce.ep.Method + " " + ex.ce.input + " q=" + fmt.Sprint(len(ex.ce.qkind) > 0) + " ret=" + ex.ce.ret + "]", Detail: fmt.Sprintf("%s (argument variant %d): %s", desc, ex.variant, detail),
+						Family: "F-endpoints", Cost: len(ex.ce.qkind), Extra: map[string]any{"endpoint": desc, "generated_method": methodText(text, ex.ce.ep.Contract.Name)}}
+					if ex.ce.prog != nil { // class generated from an extracted route list, expectations from the route file
+						f.Family, f.Features, f.Files, f.Vector = "F-routes", ex.ce.prog.Features, ex.ce.prog.FilesMap(), ex.ce.vec
+						f.Sig = "extracted routes: " + f.Sig
+					}
+					r.Fail(f)
 				}
 				if cr.Threw != nil || cr.HandleErrorCalled != nil {
 					fail("no-exception", "method threw", fmt.Sprintf("threw=%v handleError=%v", cr.Threw, cr.HandleErrorCalled))
@@ -573,7 +579,61 @@ var (
 
 // extractedRouteLists runs GenerateAxios on the endpoint lists ParseEcho extracts from the
 // F-routes programs (<= 1 deviation) and checks the text (well-formed, types included).
-func extractedRouteLists(r *evid.Report) int {
+// c14Chunk is one generated class and the endpoints expected in it.
+type c14Chunk struct {
+	eps  []c14Endpoint
+	name string
+	text string // pre-generated class (extracted route lists); "" = generate from eps
+}
+
+// groundTruthEndpoints describes the routes the synthesiser wrote (not what was extracted): the
+// class generated from the extracted list is executed against them.
+func groundTruthEndpoints(routes []fam.Route, eps []httpapi.Endpoint, t *c14Types) []c14Endpoint {
+	var out []c14Endpoint
+	for i, rt := range routes {
+		ct := httpapi.Contract{Name: eps[i].Contract.Name, IsReturnBlob: rt.Blob}
+		ce := c14Endpoint{input: "none", ret: "none"}
+		if rt.Input != "" {
+			ce.input = "json"
+			ct.InputBody = t.in
+		}
+		if len(rt.FormValues) > 0 || rt.FormFile != "" || rt.JSONField != nil {
+			ce.input = "form"
+			ct.InputForm.File = rt.FormFile
+			ct.InputForm.ValueNames = rt.FormValues
+			if rt.JSONField != nil {
+				ct.InputForm.JSON = httpapi.TypedParam{Name: rt.JSONField.Name, Type: t.payload}
+			}
+		}
+		for _, q := range rt.Query {
+			kind, ty := "string", t.str
+			switch q.Type {
+			case "bool":
+				kind, ty = "bool", t.boolean
+			case "int", "int64":
+				kind, ty = "int", t.integer
+			case "IdDossier":
+				kind, ty = "named-int", t.id
+			}
+			ct.InputQueryParams = append(ct.InputQueryParams, httpapi.TypedParam{Name: q.Name, Type: ty})
+			ce.qkind = append(ce.qkind, kind)
+		}
+		switch {
+		case rt.Blob:
+			ce.ret = "blob"
+			ct.Return = t.str
+		case rt.Return != "":
+			ce.ret = "json"
+			ct.Return = t.out
+		}
+		ce.ep = httpapi.Endpoint{Url: rt.URL, Method: rt.Verb, Contract: ct}
+		out = append(out, ce)
+	}
+	return out
+}
+
+func extractedRouteLists(r *evid.Report, t *c14Types) (int, []c14Chunk) {
+	var chunks []c14Chunk
 	n := 0
 	st := explore.Stats{}
 	seen := map[string]bool{}
@@ -608,17 +668,37 @@ func extractedRouteLists(r *evid.Report) int {
 			r.Fail(f)
 		}
 		// one method per endpoint, named after its handler
+		dupNames := false
 		for _, ep := range eps {
 			switch n := strings.Count(text, "async "+ep.Contract.Name+"("); {
 			case n == 0:
 				r.Fail(evid.Failure{Clause: "C14/one-method-per-endpoint", Sig: "method missing", Detail: "no method " + ep.Contract.Name, Family: "F-routes", Features: p.Features, Files: p.FilesMap(), Vector: c.(*explore.Run).Vec()})
 			case n > 1: // two endpoints share one method name: the later member replaces the earlier one
+				dupNames = true
 				r.Fail(evid.Failure{Clause: "C14/one-method-per-endpoint", Sig: "method " + regexpMust(`[0-9]+`).ReplaceAllString(ep.Contract.Name, "#") + " defined more than once", Detail: fmt.Sprintf("method %s is defined %d times in the class (endpoint %s %s)", ep.Contract.Name, n, ep.Method, ep.Url), Family: "F-routes", Features: p.Features, Files: p.FilesMap(), Vector: c.(*explore.Run).Vec()})
 			}
 		}
+		// execute the class against the routes the synthesiser wrote (one entry per registration, in
+		// order: C13 decides that; a list of another length is left to it)
+		var routes []fam.Route
+		if json.Unmarshal([]byte(p.Notes["routes"]), &routes) == nil && len(routes) == len(eps) && len(eps) > 0 && !dupNames {
+			ch := c14Chunk{name: fmt.Sprintf("routes%d", n), text: text}
+			for _, ce := range groundTruthEndpoints(routes, eps, t) {
+				if (ce.ep.Method == "GET" || ce.ep.Method == "DELETE") && ce.input != "none" {
+					continue // same assumption as for F-endpoints: bodies and forms go with POST and PUT
+				}
+				ch.eps = append(ch.eps, ce)
+			}
+			for i := range ch.eps {
+				ch.eps[i].prog = p
+				ch.eps[i].vec = c.(*explore.Run).Vec()
+			}
+			chunks = append(chunks, ch)
+		}
 	}, func(*explore.Run) {}, &st)
 	r.Bounds["route_programs_checked"] = n
-	return n
+	r.Bounds["route_programs_executed"] = len(chunks)
+	return n, chunks
 }
 
 func init() { customRunners["C14"] = runC14 }
